@@ -20,7 +20,9 @@ pub fn toughen(g: &mut Grammar, d: &mut Dice<'_>) {
         if t.symbol.is_some() && d.chance(1, 3) {
             let s = SYMS[d.below(SYMS.len())];
             if !s.is_empty() {
-                t.symbol = Some(format!("{s}{i}"));
+                // unique by a number in front or behind, so that every symbol shape also occurs
+                // directly before the closing quote
+                t.symbol = Some(if d.chance(1, 2) { format!("{s}{i}") } else { format!("{i}{s}") });
             }
         }
     }
@@ -104,7 +106,7 @@ pub fn check_case(stream: &[u32], prof: &Profile, ev: &mut Evidence) -> Result<(
 pub fn profiles() -> Vec<Profile> {
     vec![
         Profile { depth: 5, repair: false, c11_shapes: true, ..Profile::full() },
-        Profile { depth: 4, c11_shapes: true, max_rules: 8, ..Profile::full() },
+        Profile { depth: 4, max_rules: 8, ..Profile::text() },
         Profile { repair: false, choice: true, choice_weight: 6, preds: true, nodeops: true, actions: true, asserts: true, returns: true, empty_rules: true, parts: true, skips: true, shuffle_decls: true, ..Profile::base("dense-unrepaired") },
     ]
 }
